@@ -11,8 +11,8 @@ Proof. vm_compute. reflexivity. Qed.
 
 (** sorted appends vs. a different history reaching the same sequence with the same (distinct) priorities:
     both are heap-ordered, have the same in-order list, hence (c16_canonical) are the same tree *)
-Definition h1 : list cop := [CFrom 1; CInsert 0 1 2; CInsert 0 2 3; CInsert 0 3 4].
-Definition h2 : list cop := [CFrom 3; CFrom 1; CFrom 4; CFrom 2; CMerge 1 3; CMerge 0 1; CMerge 0 1].
+Definition h1 : list cop := [CFrom 1 []; CInsert 0 1 2 []; CInsert 0 2 3 []; CInsert 0 3 4 []].
+Definition h2 : list cop := [CFrom 3 []; CFrom 1 []; CFrom 4 []; CFrom 2 []; CMerge 1 3; CMerge 0 1; CMerge 0 1].
 Definition t1 := nth 0 (final0 [30; 10; 40; 20] h1) E.
 Definition t2 := nth 0 (final0 [40; 30; 20; 10] h2) E.
 Example ex_heap : Heap t1 /\ Heap t2.
